@@ -316,7 +316,7 @@ func Build(n *Node) *expr.Expression {
 }
 
 func BuildLeaf(l *Leaf) *expr.Expression {
-	f := expr.Lit(l.Field)
+	f := expr.Lit(Unescape(l.Field))
 	switch l.Kind {
 	case LTerm:
 		return l.Val.Expr()
